@@ -45,6 +45,8 @@ def resolve_encoded(names):
             for part in qual.split("."):
                 if part:
                     obj = getattr(obj, part)
+            if isinstance(obj, property):
+                obj = obj.fget
             obj = inspect.unwrap(obj) if callable(obj) else obj
             src, start = inspect.getsourcelines(obj)
             f = inspect.getsourcefile(obj)
